@@ -24,3 +24,4 @@ extern CO_OBJ_STR V_STR;
 extern uint8_t  *H_BUF;           /* caller buffer */
 extern uint32_t  H_BUFSZ;         /* its size */
 extern uint32_t  H_SIZE;          /* size/len argument */
+extern uint8_t   H_BK0, H_DK0;    /* snapshots old(H_BUF[G_K]) / old(storage[G_K]) for explicit-form frames */
